@@ -15,6 +15,23 @@ CLAIMS = {
         ref='DESIGN.md §3 C05'),
 }
 
+CLAIMS['C09'] = dict(
+    technique='panic-edge inventory with discharge rules, loop-shape classification, allocation provenance, dominance rules on the buffer-growth protocol',
+    text='Static analysis over the MIR of sym_file/{mod,parser,types}.rs: every panic edge is discharged (constant, interval, dominating guard, idiom or a reviewed per-site argument), '
+         'every loop is iterator-driven over a finite std source, an await loop, or has a reviewed variant whose flag protocol is itself checked, the window buffer is created with the constant '
+         'initial capacity and every grow() is dominated by the cap test, and the cap-exceeded edge enters recovery instead of returning an error. Decides totality and the fixed window for all inputs '
+         'up to the stated trust in nom/circular; it does not measure memory.',
+    note='Trusted: rustc MIR, the extractor, nom and circular through the API table, the reviewed tables py/tables/*.json (one argument per site key; entries with a backing rule are void when that rule fails). usize = 64 bit.',
+    ref='DESIGN.md §3 C09')
+CLAIMS['C20'] = dict(
+    technique='panic-edge inventory over the binary, exit/printing discipline by reachability and path-sensitive control dependence, option-table agreement',
+    text='Static analysis of minidump-stackwalk: no undischarged panic edge in the binary (the --features unimplemented!() arm is discharged by agreement between the clap value_parser list and the handled arms), '
+         'every process::exit has status 1 after a diagnostic, no failure exit is reachable after a printer call, the output writers are handed only to ProcessState::print/print_brief/print_json and print_minidump_dump, '
+         'and each printer call is control-dependent on the option that selects it with cli.brief / cli.pretty / the cyborg file wired as documented. This decides the wiring clauses for every input and option set; '
+         'byte equality with the library follows from "same call, same writer" and is not compared on values.',
+    note='Trusted: clap (value_parser and ArgGroup enforcement), tokio::select!, rustc MIR, the extractor. Renaming the mode variables (human/json/raw_dump) is reported as a missing anchor.',
+    ref='DESIGN.md §3 C20')
+
 NOT_YET = {}
 NA = {
     'C14': 'every clause relates values of the result to values of the dump (which thread, which context, which address after masking); no clause has a structural form that would not also fire on behaviour-preserving rewrites, so static analysis does not apply; its panic-freedom is covered under C03',
